@@ -7,7 +7,7 @@ from odata_query import ast
 from odata_query.roundtrip import AstToODataVisitor
 import checks.c09 as c09
 
-PROP_MODS = ["ODataVerif.Props.C12Orm", "ODataVerif.Props.C12Complete", "ODataVerif.Props.C12Accepted", "ODataVerif.Tie.Sql", "ODataVerif.Tie.SqlTemplates", "ODataVerif.Tie.ExceptionTree", "ODataVerif.Tie.ParserTables", "ODataVerif.Props.C12", "ODataVerif.Props.C10Image", "ODataVerif.Props.C06Image"]
+PROP_MODS = ["ODataVerif.Props.C12Sql", "ODataVerif.Props.C12Orm", "ODataVerif.Props.C12Complete", "ODataVerif.Props.C12Accepted", "ODataVerif.Tie.Sql", "ODataVerif.Tie.SqlTemplates", "ODataVerif.Tie.ExceptionTree", "ODataVerif.Tie.ParserTables", "ODataVerif.Props.C12", "ODataVerif.Props.C10Image", "ODataVerif.Props.C06Image"]
 
 def rel_filters():
     """paths and lambdas over the relational schema (P root): well-typed by construction"""
